@@ -11,6 +11,7 @@ package main
 // deep-nesting (at the end of the file): documents and values nested up to 10 000 levels.
 
 import (
+	"encoding/json"
 	"fmt"
 	"math/rand"
 	"os"
@@ -1142,5 +1143,752 @@ func init() {
 		Name: "deep-nesting", Prop: "C04",
 		Rule: "documents and values nested 500 / 999 / 1000 / 1001 / 1002 / 1003 / 1500 / 2000 / 3000 / 5000 / 9999 / 10 000 levels (thorough: also random depths) -- arrays, objects, alternating, with sibling members at every level; innermost container empty or holding a string / null / a number / an empty container -- written back through every route: -o of the unmodified document, json() of the whole document, -o of a sub-document selected with -r and of a root that a selector builds around it, json() of a value the program builds by wrapping a seed in a loop, -o of a document into which such a value was stored, and the REAL BINARY with -o FILE and -o - (input file or stdin). Oracle: the text parses with encoding/json to the input value / the tree the generator built (encoding/json reads 10 000 levels; its encoder has no limit for acyclic values). Up to 1 003 levels (and two cases at 2 000) the full text is compared with the model; from 2 000 levels on (the indented text grows with the square of the depth: 8 MB at 2 000, 200 MB at 10 000) the worker answers with the compact form, the length and whether the text is exactly the canonical two-space indentation (run flag c, cli flag z). A document of 10 001 levels must be a JSON input error",
 		Gen:  c04DeepNesting,
+	})
+}
+
+// ---- json() results held while json() is called again -----------------------------------
+//
+// "json(x) is valid JSON that reads back as x" must hold for a result for as long as the
+// program keeps it, not only at the moment json() returns: several results are alive at once
+// (variables, array elements, object members, operands of one expression, arguments of one
+// call / print) and are printed only after every json() call has been made.
+
+// c04HeldValue: a value with its tree; short scalars, literal trees and long containers so that
+// a later result is shorter / longer / as long as an earlier one.
+func c04HeldValue(r *rand.Rand, container bool) vgLit {
+	switch k := r.Intn(10); {
+	case k < 2 && !container:
+		n := pick(r, vgLitNumbers)
+		return vgLit{n.expr, n.val}
+	case k < 3 && !container:
+		lit, s := vgLitString(r, false)
+		return vgLit{lit, s}
+	case k < 6:
+		n := pick(r, []int{1, 2, 3, 5, 8, 13, 30, 60})
+		items := make([]string, n)
+		tree := make([]interface{}, n)
+		base := r.Intn(1000)
+		for i := range items {
+			if chance(r, 0.8) {
+				items[i], tree[i] = fmt.Sprint(base+i), float64(base+i)
+			} else {
+				l := vgLitTree(r, 3, false)
+				items[i], tree[i] = l.expr, l.tree
+			}
+		}
+		return vgLit{"[" + strings.Join(items, ", ") + "]", tree}
+	case k < 8:
+		n := 1 + r.Intn(6)
+		var items []string
+		tree := map[string]interface{}{}
+		for i := 0; i < n; i++ {
+			key := fmt.Sprintf("k%d", r.Intn(12))
+			l := vgLitTree(r, 3, false)
+			items = append(items, mustStrLit(key)+": "+l.expr)
+			tree[key] = l.tree
+		}
+		return vgLit{"{" + strings.Join(items, ", ") + "}", tree}
+	default:
+		for {
+			l := vgLitTree(r, 1, false)
+			if !container {
+				return l
+			}
+			switch l.tree.(type) {
+			case []interface{}, map[string]interface{}:
+				return l
+			}
+		}
+	}
+}
+
+func c04HeldResults(r *rand.Rand, tier string, emit func(Case)) {
+	n := tierN(tier, 2500, 25000)
+	for i := 0; i < n; i++ {
+		k := 2 + r.Intn(4)
+		form := r.Intn(14)
+		selfDelim := form == 7 // texts are concatenated: only containers delimit themselves
+		vals := make([]vgLit, k)
+		for j := range vals {
+			vals[j] = c04HeldValue(r, selfDelim)
+		}
+		switch r.Intn(4) {
+		case 0: // shorter, then longer
+			sort.SliceStable(vals, func(a, b int) bool { return len(vals[a].expr) < len(vals[b].expr) })
+		case 1: // longer, then shorter
+			sort.SliceStable(vals, func(a, b int) bool { return len(vals[a].expr) > len(vals[b].expr) })
+		}
+		var want []interface{}
+		for _, v := range vals {
+			want = append(want, v.tree)
+		}
+		calls := make([]string, k)
+		for j, v := range vals {
+			calls[j] = "json(" + v.expr + ")"
+		}
+		var st []string
+		var pre, kind string
+		var files []File
+		switch form {
+		case 0:
+			kind = "variables"
+			for j := range vals {
+				st = append(st, fmt.Sprintf("s%d = %s", j, calls[j]))
+			}
+			for j := range vals {
+				st = append(st, fmt.Sprintf("print s%d", j))
+			}
+		case 1:
+			kind = "array elements (push)"
+			st = append(st, "h = []")
+			for j := range vals {
+				st = append(st, "h.push("+calls[j]+")")
+			}
+			st = append(st, "for (x in h) print x")
+		case 2:
+			kind = "object members"
+			st = append(st, "o = {}")
+			for j := range vals {
+				if chance(r, 0.5) {
+					st = append(st, fmt.Sprintf("o.m%d = %s", j, calls[j]))
+				} else {
+					st = append(st, fmt.Sprintf("o['m%d'] = %s", j, calls[j]))
+				}
+			}
+			for j := range vals {
+				st = append(st, fmt.Sprintf("print o.m%d", j))
+			}
+		case 3:
+			kind = "array literal"
+			st = append(st, "h = ["+strings.Join(calls, ", ")+"]", "for (x in h) print x")
+		case 4:
+			kind = "object literal"
+			var ms []string
+			for j := range vals {
+				ms = append(ms, fmt.Sprintf("m%d: %s", j, calls[j]))
+			}
+			st = append(st, "o = {"+strings.Join(ms, ", ")+"}")
+			for j := range vals {
+				st = append(st, fmt.Sprintf("print o.m%d", j))
+			}
+		case 5:
+			kind = "arguments of one print"
+			st = append(st, "print "+strings.Join(calls, ", "))
+		case 6:
+			kind = "arguments of one call"
+			var ps, body []string
+			for j := range vals {
+				ps = append(ps, fmt.Sprintf("p%d", j))
+				body = append(body, fmt.Sprintf("print p%d", j))
+			}
+			if chance(r, 0.5) {
+				body = append([]string{"z = json([p0, 'again'])"}, body...)
+			}
+			pre = "function show(" + strings.Join(ps, ", ") + ") { " + strings.Join(body, "; ") + " }\n"
+			st = append(st, "show("+strings.Join(calls, ", ")+")")
+		case 7:
+			kind = "operands of +"
+			st = append(st, "print "+strings.Join(calls, " + "))
+		case 8:
+			kind = "operands of == / !="
+			// the second operand: the same value (equal texts) or the value wrapped (different texts)
+			want = nil
+			for j, v := range vals {
+				same := chance(r, 0.5)
+				other := "json(" + v.expr + ")"
+				if !same {
+					other = "json([" + v.expr + "])"
+				}
+				op := pick(r, []string{"==", "!="})
+				if chance(r, 0.5) {
+					st = append(st, fmt.Sprintf("print %s %s %s", calls[j], op, other))
+				} else {
+					st = append(st, fmt.Sprintf("print %s %s %s", other, op, calls[j]))
+				}
+				want = append(want, same == (op == "=="))
+			}
+		case 9:
+			kind = "printf arguments"
+			st = append(st, "printf('"+strings.Repeat("%s\\n", k)+"', "+strings.Join(calls, ", ")+")")
+			// a single-quoted literal keeps \n as an escape too
+		case 10:
+			kind = "results of a function that calls json()"
+			pre = "function j(v) { return json(v) }\n"
+			for j, v := range vals {
+				st = append(st, fmt.Sprintf("s%d = j(%s)", j, v.expr))
+			}
+			for j := range vals {
+				st = append(st, fmt.Sprintf("print s%d", j))
+			}
+		case 11:
+			kind = "the previous result kept while the next is made"
+			st = append(st, "prev = "+calls[0])
+			for j := 1; j < k; j++ {
+				st = append(st, "cur = "+calls[j], "print prev", "prev = cur")
+			}
+			st = append(st, "print prev")
+		default:
+			// per record: the results of all records are kept, printed in END
+			kind = "one result per record, printed in END"
+			docs := make([]string, k)
+			for j, v := range vals {
+				b, err := json.Marshal(v.tree)
+				if err != nil {
+					panic(err)
+				}
+				docs[j] = string(b)
+			}
+			want = nil
+			for _, d := range docs {
+				v, err := vgDecodeOne([]byte(d)) // what the reader makes of it (-0 stays -0, 1e21 is a number)
+				if err != nil {
+					panic(err)
+				}
+				want = append(want, v)
+			}
+			data := "[" + strings.Join(docs, ",\n") + "]"
+			if form == 13 {
+				data = strings.Join(docs, "\n")
+				var flat []interface{}
+				for _, v := range want {
+					flat = append(flat, c04Records(v)...)
+				}
+				want = flat
+			}
+			files = vgDocFile(data)
+			var prog string
+			switch r.Intn(4) {
+			case 0:
+				prog = "BEGIN { h = [] } { h.push(json($)) } END { for (l in h) print l }"
+			case 1:
+				prog = "BEGIN { n = 0; o = {} } { o['r' + n] = json($); n = n + 1 } END { for (i = 0; i < n; i = i + 1) print o['r' + i] }"
+			case 2:
+				prog = "{ if (have) print prev; prev = json($); have = true } END { if (have) print prev }"
+			default:
+				prog = "{ a = json($); b = json([$]); c = json($); print a; print c == a }"
+				var w2 []interface{}
+				for _, v := range want {
+					w2 = append(w2, v, true)
+				}
+				want = w2
+			}
+			emit(Case{Req: RunReq(prog, nil, files, false), Fields: c04Fields,
+				Meta:   metaProg(prog, "kind", kind, "input", short(data), "expect", "every printed text parses to the record it was made from"),
+				Oracle: c04OutOracle(want)})
+			continue
+		}
+		prog := pre + "BEGIN { " + strings.Join(st, "; ") + " }"
+		emit(Case{Req: RunReq(prog, nil, nil, false), Fields: c04Fields,
+			Meta:   metaProg(prog, "kind", kind, "expect", "every printed text parses to the value it was made from"),
+			Oracle: c04OutOracle(want)})
+	}
+}
+
+// ---- -r selectors on inputs that hold several documents ---------------------------------
+//
+// Every document of a stream (and of every file) goes through every selector; the rules run
+// on each selected root, and -o writes the root selected LAST: the last selector applied to
+// the last document.
+
+type c04Shape struct {
+	kind byte // 'o', 'a', 'l'
+	keys []string
+	kids []*c04Shape
+	leaf int
+}
+
+func c04ShapeGen(r *rand.Rand, depth int, next *int) *c04Shape {
+	k := r.Intn(3)
+	if depth == 0 && k == 2 {
+		k = r.Intn(2)
+	}
+	if depth >= 3 {
+		k = 2
+	}
+	switch k {
+	case 0:
+		s := &c04Shape{kind: 'o'}
+		keys := []string{"a", "b", "c", "d", "name", "k1", "x y", "10", "é"}
+		r.Shuffle(len(keys), func(i, j int) { keys[i], keys[j] = keys[j], keys[i] })
+		n := 1 + r.Intn(3)
+		for i := 0; i < n; i++ {
+			s.keys = append(s.keys, keys[i])
+			s.kids = append(s.kids, c04ShapeGen(r, depth+1, next))
+		}
+		return s
+	case 1:
+		s := &c04Shape{kind: 'a'}
+		n := 1 + r.Intn(3)
+		for i := 0; i < n; i++ {
+			s.kids = append(s.kids, c04ShapeGen(r, depth+1, next))
+		}
+		return s
+	}
+	*next++
+	return &c04Shape{kind: 'l', leaf: *next}
+}
+
+// render document number doc of the shape: the same structure with leaves that name the
+// document; now and then a member is missing, an array is longer or shorter.
+func (s *c04Shape) render(r *rand.Rand, doc int) interface{} {
+	switch s.kind {
+	case 'o':
+		m := map[string]interface{}{}
+		for i, k := range s.keys {
+			if doc > 0 && chance(r, 0.08) {
+				continue
+			}
+			m[k] = s.kids[i].render(r, doc)
+		}
+		return m
+	case 'a':
+		a := []interface{}{}
+		for i, kid := range s.kids {
+			if doc > 0 && i == len(s.kids)-1 && chance(r, 0.1) {
+				continue
+			}
+			a = append(a, kid.render(r, doc))
+		}
+		if chance(r, 0.15) {
+			a = append(a, fmt.Sprintf("extra-%d", doc))
+		}
+		return a
+	}
+	switch s.leaf % 5 {
+	case 0:
+		return float64(doc*1000 + s.leaf)
+	case 1:
+		return fmt.Sprintf("doc%d-leaf%d", doc, s.leaf)
+	case 2:
+		return doc%2 == 0
+	case 3:
+		if doc%3 == 2 {
+			return nil
+		}
+		return float64(doc) + 0.5
+	}
+	return []interface{}{float64(doc)}
+}
+
+type c04Step struct {
+	key   string
+	index int
+	isKey bool
+}
+
+// c04ShapePath: a selector written from a walk through the shape.
+func c04ShapePath(r *rand.Rand, s *c04Shape) (string, []c04Step, bool) {
+	sel := "$"
+	var steps []c04Step
+	n := r.Intn(4)
+	for i := 0; i < n && s != nil; i++ {
+		switch s.kind {
+		case 'o':
+			if chance(r, 0.9) {
+				j := r.Intn(len(s.keys))
+				st, ok := c04KeyStep(r, s.keys[j])
+				if !ok {
+					return "", nil, false
+				}
+				sel += st
+				steps = append(steps, c04Step{key: s.keys[j], isKey: true})
+				s = s.kids[j]
+			} else {
+				sel += ".zz"
+				steps = append(steps, c04Step{key: "zz", isKey: true})
+				s = nil
+			}
+		case 'a':
+			j := r.Intn(len(s.kids))
+			switch {
+			case chance(r, 0.7):
+				sel += fmt.Sprintf("[%d]", j)
+				steps = append(steps, c04Step{index: j})
+				s = s.kids[j]
+			case chance(r, 0.6):
+				sel += "[-1]"
+				steps = append(steps, c04Step{index: -1})
+				s = nil
+			default:
+				sel += fmt.Sprintf("[%d]", len(s.kids)+1)
+				steps = append(steps, c04Step{index: len(s.kids) + 1})
+				s = nil
+			}
+		default:
+			sel += ".zz"
+			steps = append(steps, c04Step{key: "zz", isKey: true})
+			s = nil
+		}
+	}
+	return sel, steps, true
+}
+
+// c04Follow: what the steps select in a decoded document (a missing member, an index past the
+// end and any member of null or of a scalar give null); ok=false: a runtime error (a negative
+// index before the start) or a step this function does not predict.
+func c04Follow(v interface{}, steps []c04Step) (interface{}, bool) {
+	for _, st := range steps {
+		switch c := v.(type) {
+		case map[string]interface{}:
+			if !st.isKey {
+				return nil, false
+			}
+			v = c[st.key]
+		case []interface{}:
+			switch {
+			case st.isKey:
+				v = nil
+			case st.index >= 0 && st.index < len(c):
+				v = c[st.index]
+			case st.index >= 0:
+				v = nil
+			case len(c)+st.index >= 0:
+				v = c[len(c)+st.index]
+			default:
+				return nil, false
+			}
+		case nil:
+			v = nil
+		default:
+			if !st.isKey {
+				return nil, false // an index into a string gives a character
+			}
+			v = nil
+		}
+	}
+	return v, true
+}
+
+var c04StreamProgs = []string{
+	"{ print json($) }", "{ print json($) }", "{ print $ }", "{ print $file, $ }", "{ print $file, json($) }",
+	"BEGINFILE { print 'bf', $ } { print $ } ENDFILE { print 'ef', $ }", "{ n++ } END { print n, $ }", "$", "{}",
+	"{ last = $ } END { print json(last) }", "BEGINFILE { print json($) }", "ENDFILE { print json($) }",
+}
+
+func c04SelectorStreams(r *rand.Rand, tier string, emit func(Case)) {
+	n := tierN(tier, 2500, 25000)
+	haveBin := os.Getenv("JQAWK_BIN") != ""
+	for i := 0; i < n; i++ {
+		leaf := 0
+		shape := c04ShapeGen(r, 0, &leaf)
+		nd := 2 + r.Intn(4)
+		if chance(r, 0.08) {
+			nd = 1
+		}
+		trees := make([]interface{}, nd)
+		texts := make([]string, nd)
+		for d := range trees {
+			t := shape.render(r, d)
+			b, err := json.Marshal(t)
+			if err != nil {
+				panic(err)
+			}
+			texts[d] = string(b)
+			trees[d], _ = vgDecodeOne(b)
+		}
+		ns := 1
+		if chance(r, 0.3) {
+			ns = 2 + r.Intn(2)
+		}
+		var sels []string
+		var paths [][]c04Step
+		good := true
+		for s := 0; s < ns; s++ {
+			sel, steps, ok := c04ShapePath(r, shape)
+			good = good && ok
+			sels = append(sels, sel)
+			paths = append(paths, steps)
+		}
+		if !good {
+			continue
+		}
+		// what every selector selects in every document, in the order the rules see it
+		var roots []interface{}
+		predictable := true
+		for d := range trees {
+			for _, p := range paths {
+				v, ok := c04Follow(trees[d], p)
+				predictable = predictable && ok
+				roots = append(roots, v)
+			}
+		}
+		// the documents in one file or spread over several files
+		nf := 1
+		if chance(r, 0.35) {
+			nf = 2 + r.Intn(2)
+		}
+		if nf > nd {
+			nf = nd
+		}
+		files := make([]File, nf)
+		per := make([][]string, nf)
+		for d := range texts {
+			f := d * nf / nd
+			per[f] = append(per[f], texts[d])
+		}
+		var shown []string
+		for f := range files {
+			sep := pick(r, []string{"\n", "\n", " ", "", "\n\n", "\t", " \n "})
+			data := strings.Join(per[f], sep) + pick(r, []string{"", "\n", " "})
+			files[f] = File{Name: fmt.Sprintf("f%d.json", f+1), Data: []byte(data)}
+			shown = append(shown, data)
+		}
+		prog := pick(r, c04StreamProgs)
+		if chance(r, 0.2) {
+			prog = pick(r, c04ReadOnlyProgs)
+		}
+		wantJSON := chance(r, 0.65)
+		c := Case{Req: RunReq(prog, sels, files, wantJSON), Fields: c04Fields,
+			Meta: metaProg(prog, "input", short(strings.Join(shown, " | ")), "documents", fmt.Sprint(nd), "files", fmt.Sprint(nf), "selectors", strings.Join(sels, "  "), "-o", fmt.Sprint(wantJSON)),
+			NonTrivial: func(i Resp) bool {
+				return i["class"] == "ok" && (i["out"] != "-" && i["out"] != "" || c04HasJSON(i))
+			}}
+		if predictable {
+			last := roots[len(roots)-1]
+			var recs []interface{}
+			for _, v := range roots {
+				recs = append(recs, c04Records(v)...)
+			}
+			printsJSON := prog == "{ print json($) }"
+			c.Meta["expect"] = "-o: " + vgShow(last)
+			c.Oracle = func(i Resp) string {
+				if wantJSON {
+					if w := c04RootOracle(last)(i); w != "" {
+						return w
+					}
+				}
+				if printsJSON {
+					return c04OutOracle(recs)(i)
+				}
+				if i["class"] != "ok" {
+					return "class=" + i["class"] + " msg=" + i["msg"] + " (neither the selectors nor the program can fail)"
+				}
+				return ""
+			}
+		}
+		emit(c)
+		// the same through the real binary (one input: -o refuses several)
+		if haveBin && predictable && nf == 1 && i%6 == 0 {
+			var argv []string
+			for _, s := range sels {
+				argv = append(argv, "-r", s)
+			}
+			toFile := chance(r, 0.5)
+			o, ofile := "-", ""
+			if toFile {
+				o, ofile = "out.json", "out.json"
+			}
+			argv = append(argv, "-o", o, "{}")
+			var disk []CliFile
+			var stdin []byte
+			useStdin := chance(r, 0.5)
+			if useStdin {
+				stdin = files[0].Data
+			} else {
+				disk = []CliFile{{Name: "f1.json", Data: files[0].Data}}
+				argv = append(argv, "f1.json")
+			}
+			emit(Case{Req: CliReq(argv, stdin, useStdin, disk, ofile), Fields: c04CliFields, NonTrivial: c04CliNT,
+				Meta:   metaProg("{}", "input", short(shown[0]), "argv", strings.Join(argv, " ␣ "), "variant", "the binary", "expect", vgShow(roots[len(roots)-1])),
+				Oracle: c04CliJSONOracle(roots[len(roots)-1], toFile, "")})
+		}
+	}
+}
+
+// ---- -o of inputs that cannot be rewound --------------------------------------------------
+//
+// The value -o writes is the value that was READ, whatever kind of file delivered the bytes:
+// a regular file, a named pipe, /dev/stdin (or /dev/fd/0, /proc/self/fd/0) with a pipe or a
+// regular file behind it, or plain standard input. Documents of 0-8 bytes and longer, with and
+// without a byte order mark (which is not JSON: Go's decoder rejects it, so must the binary).
+
+var c04TinyDocs = []string{
+	"", "1", "7", "12", "123", "1234", "12345", "123456", "1234567", "12345678", "[]", "{}", "[1]", "[[]]", "null", "true", "false", "\"\"", "\"a\"", "\"abc\"",
+	"1 2", "1 2 3", "1  [2]", "1\n[2]", " 1", "  7", "   8", "\n\n\n7", "   [1]", "\t\t\t\t{}", "[1,2]", "[1, 2]", "{\"a\":1}", "0", "-1", "1e3", "1.5", "0.25", "[", "]", "tru", "nul", "12,", "1,2",
+	"\"\\u00e9\"", "\"é\"", "nullnull", "[][]", "[] {}", "{}  7", "1 [", "11 1",
+}
+
+var c04LongerDocs = []string{
+	"[1,{\"a\":[]},\"x\"]", "{\"k\":[true,null]}", "123456789", "1234567890123", "[1234567]\n", "{\"x\":1}\n{\"x\":2}\n", "[1,2,3] [4,5,6]", "   \n   {\"name\": \"alligator\", \"tags\": [\"a\", \"b\"]}\n",
+	"\"a string that is longer than any probe\"", "1 2 3 4 5 6 7 8 9", "[[[[[[[[1]]]]]]]]", "{\"a\":{\"b\":{\"c\":[null,false,\"\"]}}}",
+}
+
+func c04Unseekable(r *rand.Rand, tier string, emit func(Case)) {
+	if os.Getenv("JQAWK_BIN") == "" {
+		emit(Case{ID: "no-binary", Req: "cli - - - -", ImplOnly: true, Oracle: c04CliBasic,
+			Meta: map[string]string{"problem": "env JQAWK_BIN is not set; this family runs the real binary"}})
+		return
+	}
+	type scen struct{ data, what string }
+	var scens []scen
+	bom := "\xef\xbb\xbf"
+	for _, d := range c04TinyDocs {
+		scens = append(scens, scen{d, "tiny"})
+	}
+	for _, d := range c04LongerDocs {
+		scens = append(scens, scen{d, "longer"})
+	}
+	nb := tierN(tier, 14, 400)
+	all := append(append([]string{}, c04TinyDocs...), c04LongerDocs...)
+	for i := 0; i < nb; i++ {
+		d := pick(r, all)
+		switch r.Intn(6) {
+		case 0, 1, 2:
+			scens = append(scens, scen{bom + d, "byte order mark first"})
+		case 3:
+			scens = append(scens, scen{bom[:1+r.Intn(2)] + d, "part of a byte order mark first"})
+		case 4:
+			scens = append(scens, scen{bom + bom + d, "two byte order marks first"})
+		default:
+			scens = append(scens, scen{d + pick(r, []string{"", " ", "\n"}) + bom + pick(r, all), "byte order mark between two values"})
+		}
+	}
+	nr := tierN(tier, 12, 600)
+	for i := 0; i < nr; i++ {
+		switch r.Intn(4) {
+		case 0:
+			scens = append(scens, scen{vgStream(r, vgRichCfg()), "rich stream"})
+		case 1:
+			scens = append(scens, scen{c04BinaryDoc(r), "%-rich document"})
+		case 2:
+			// white space of every length in front of a short value
+			scens = append(scens, scen{strings.Repeat(pick(r, []string{" ", "\n", "\t", "\r\n"}), r.Intn(9)) + pick(r, c04TinyDocs), "white space first"})
+		default:
+			size := pick(r, []int{200, 5000})
+			if tier == "thorough" && chance(r, 0.1) {
+				size = 70000
+			}
+			var sb strings.Builder
+			sb.WriteString("[")
+			for k := 0; sb.Len() < size; k++ {
+				if k > 0 {
+					sb.WriteString(",")
+				}
+				fmt.Fprintf(&sb, "{\"i\":%d,\"s\":\"v%d\"}", k, k)
+			}
+			sb.WriteString("]\n")
+			scens = append(scens, scen{sb.String(), fmt.Sprintf("%d bytes", size)})
+		}
+	}
+	withFlags := func(req string, flags ...string) string {
+		for _, f := range flags {
+			if f == "" {
+				continue
+			}
+			if strings.HasSuffix(req, " -") {
+				req = strings.TrimSuffix(req, "-") + f
+			} else {
+				req += "," + f
+			}
+		}
+		return req
+	}
+	for si, sc := range scens {
+		data := []byte(sc.data)
+		vals, derr := vgDecodeAll(data)
+		wellFormed := derr == nil && len(vals) > 0
+		modes := []bool{si%2 == 1}
+		if tier == "thorough" || sc.what != "tiny" {
+			modes = []bool{false, true}
+		}
+		for _, toFile := range modes {
+			toFile := toFile
+			o, ofile, oflag := "-", "", ""
+			if toFile {
+				o, ofile = "out.json", "out.json"
+				oflag = "o=" + hxs(ofile)
+			}
+			// the BEGIN line tells the harness that the binary has opened its inputs: a named pipe
+			// loses what was written into it if the writer closes before the reader has opened it
+			own := "go\n"
+			prog := "BEGIN { print \"go\" } " + pick(r, []string{"{}", "{}", "{ x = $ }", "{ n = n + 1 }"})
+			argv := func(names ...string) []string { return append([]string{"-o", o, prog}, names...) }
+			g := fmt.Sprintf("unseekable-%d-%v", si, toFile)
+			var oracle func(Resp) string
+			if wellFormed {
+				oracle = c04CliJSONOracle(vals[len(vals)-1], toFile, own)
+			} else {
+				oracle = func(i Resp) string {
+					if w := c04CliBasic(i); w != "" {
+						return w
+					}
+					if i["exit"] == "0" {
+						return "Go's decoder rejects this input (or it is empty) but the binary exits with status 0"
+					}
+					if i["ofexists"] == "1" {
+						return "an -o file was written although the run failed"
+					}
+					return ""
+				}
+			}
+			k := 0
+			add := func(how, req, modelReq string) {
+				k++
+				c := Case{ID: fmt.Sprintf("%s/%d", g, k), Req: req, Fields: c04CliFields, Group: g, GroupFields: c04CliFields, Oracle: oracle, NonTrivial: c04CliNT,
+					Meta: metaProg(prog, "input", fmt.Sprintf("%s (%d bytes): %s", sc.what, len(data), short(fmt.Sprintf("%q", sc.data))), "delivery", how, "-o", o, "row", how, "col", sc.what)}
+				if modelReq != req {
+					c.ModelReq = modelReq
+				}
+				if len(data) > 100000 {
+					c.ImplOnly = true
+				}
+				emit(c)
+			}
+			plain := CliReq(argv("in.json"), nil, false, []CliFile{{Name: "in.json", Data: data}}, ofile)
+			add("regular file", plain, plain)
+			fifo := func(first, rest []byte) string {
+				return withFlags(CliStagedReq(argv("in.json"), "fifo", nil, nil, []CliFile{{Name: "in.json", Fifo: true, Data: first, Rest: rest}}, 1), oflag)
+			}
+			add("named pipe, everything written before the binary reads", fifo(data, nil), plain)
+			if len(data) > 0 && (si%3 == 0 || tier == "thorough") {
+				add("named pipe, everything written once the binary waits", fifo(nil, data), plain)
+			}
+			if len(data) > 1 {
+				cut := 1 + r.Intn(len(data)-1)
+				if len(data) > 5 && chance(r, 0.7) {
+					cut = 1 + r.Intn(4)
+				}
+				add(fmt.Sprintf("named pipe, %d bytes, a pause, the rest", cut), fifo(data[:cut], data[cut:]), plain)
+			}
+			for _, dev := range []string{"/dev/stdin", "/dev/fd/0", "/proc/self/fd/0"} {
+				if dev != "/dev/stdin" && si%4 != 0 && tier != "thorough" {
+					continue
+				}
+				devModel := CliReq(argv(dev), nil, false, []CliFile{{Name: dev, Data: data}}, ofile)
+				add(dev+" named, stdin is a pipe", CliReq(argv(dev), data, true, nil, ofile), devModel)
+				if dev == "/dev/stdin" {
+					add(dev+" named, stdin is a regular file", CliStdinKindReq(argv(dev), data, "file", nil, ofile), devModel)
+					if len(data) > 1 && si%3 == 1 {
+						cut := 1 + r.Intn(min(len(data)-1, 4))
+						add(fmt.Sprintf("%s named, stdin is a pipe fed with %d bytes, a pause, the rest", dev, cut),
+							withFlags(CliStagedReq(argv(dev), "stdin", data[:cut], data[cut:], nil, 1<<30), oflag, "d=15"), devModel)
+					}
+				}
+			}
+			stdinModel := CliReq(argv(), data, true, nil, ofile)
+			add("standard input without a name, a pipe", stdinModel, stdinModel)
+			if si%3 == 2 || tier == "thorough" {
+				add("standard input without a name, a regular file", CliStdinKindReq(argv(), data, "file", nil, ofile), stdinModel)
+				add("standard input without a name, a socket", CliStdinKindReq(argv(), data, "socket", nil, ofile), stdinModel)
+			}
+		}
+	}
+}
+
+func init() {
+	register(Family{
+		Name: "json-results-held", Prop: "C04",
+		Rule: "HISTORIES of json(): 2-5 results (short scalars, literal trees, arrays of 1-60 elements, objects; in random order, shorter then longer, longer then shorter) are alive at the same time -- in variables, pushed into an array, object members, elements of one array / object literal, arguments of one print / printf / call, both operands of + and of == / !=, results of a function that calls json(), the previous result kept while the next one is made, one result per record kept until END -- and are printed only after all calls were made; oracle: the output is the sequence of JSON texts that Go decodes to the values the texts were made from (== / != of the texts of equal / different values: true / false)",
+		Gen:  c04HeldResults,
+	})
+	register(Family{
+		Name: "selectors-streams", Prop: "C04",
+		Rule: "1-3 -r selectors on inputs holding 1-5 DOCUMENTS of one shape whose leaves name the document (members now and then missing, arrays longer or shorter), as a stream / JSON lines in one file or spread over 2-3 files, with and without -o, rules printing $ / json($) / $index / $file, BEGINFILE / ENDFILE / END rules; oracle: -o re-parses to what the LAST selector selects in the LAST document, { print json($) } prints the records of what every selector selects in every document, in order; every sixth single-file case also through the real binary (-r … -o - / -o FILE, file or stdin)",
+		Gen:  c04SelectorStreams,
+	})
+	register(Family{
+		Name: "o-unseekable-inputs", Prop: "C04",
+		Rule: "the REAL BINARY with -o - / -o FILE on documents of 0-8 bytes (every length; numbers, containers, streams, leading white space, ill-formed ones), longer ones, rich / %-rich / 200 B - 5 kB (thorough 70 kB) documents, each also with a byte order mark (whole, in part, twice, between two values: not JSON), delivered as a regular file (compared with the model; first of the Group), a named pipe given as file argument (written before the binary reads / once it waits / in two parts), /dev/stdin, /dev/fd/0, /proc/self/fd/0 given by name with stdin a pipe / a regular file / a pipe fed in two parts, and plain standard input (pipe, regular file, socket); oracle: exit 0 and JSON that re-parses to the last value of the bytes iff Go's decoder accepts them, otherwise a failure and no -o file; Group: every delivery answers as the regular file does (exit, stdout, diagnostic flag, -o file) and as the model does for the bytes in a plain file",
+		Gen:  c04Unseekable,
 	})
 }
